@@ -164,6 +164,20 @@ func init() {
 				id := fmt.Sprintf("many-imports/%d", mi)
 				w.Case(id, func(c *C) { pair(c, id, []File{{"c.yaml", cfg.YAML()}}, false, P(true)) })
 			}
+			// configurations without any service or decorator: what a parameter copies into the generated code (the Go
+			// name of a registered function) is checked in both modes all the same
+			for _, x := range []string{"type", "func", "go", "map", "range", "FnStr", "9x", "Fn Str", ""} {
+				for _, qual := range []string{"pk.", "", `"fx/pk".`} {
+					x, qual := x, qual
+					id := fmt.Sprintf("parameters-only/function=%s%s", qual, x)
+					w.Case(id, func(c *C) {
+						cfg := &Cfg{Meta: &Meta{Pkg: P("gen"), Imports: []KV{{"pk", "fx/pk"}}, Functions: []KV{{"foo", qual + x}}}, Params: []Param{{"p", `%foo("a")%`}, {"q", "x%p%"}}}
+						c17keySuffix = ":parameters-only"
+						defer func() { c17keySuffix = "" }()
+						pair(c, id, []File{{"c.yaml", cfg.YAML()}}, false, nil)
+					})
+				}
+			}
 			// how many of each: 0..3 arguments, fields, calls and tags on one service (and as many decorators) - accepted in
 			// both modes, same API
 			for v := 0; v < 256; v++ {
